@@ -142,6 +142,11 @@ def hUrlDec : Handler
   | [d] => do let d ← unhex d; pure (showPyM hex (urlGet d))
   | _ => none
 
+/-- `urlinit`: the `_type` bytes of a fresh `UrlServiceData()` (Eddystone UUID, frame type 0x10, −25 dBm at 1 m) -/
+def hUrlInit : Handler
+  | [] => some (hex urlTypeInit)
+  | _ => none
+
 def hUrlPa : Handler
   | [t] => do let t ← unhex t; pure (showPyM showInt (urlGetPa t))
   | _ => none
@@ -224,7 +229,7 @@ def bleHandlers : List (String × Handler) :=
   [("ble", hBle), ("swap", hSwap), ("revbits", hRevBits), ("chunk", hChunk),
    ("whitener", hWhitener), ("crc24", hCrc24), ("tempenc", hTempEnc), ("tempdec", hTempDec),
    ("batenc", hBatEnc), ("batdec", hBatDec), ("urlenc", hUrlEnc), ("urldec", hUrlDec),
-   ("urlpa", hUrlPa), ("urlpaset", hUrlPaSet), ("svc", hSvc),
+   ("urlpa", hUrlPa), ("urlinit", hUrlInit), ("urlpaset", hUrlPaSet), ("svc", hSvc),
    ("specrecv", hSpecRecv), ("specenc", hSpecEnc), ("spectemp", hSpecTemp),
    ("spectempenc", hSpecTempEnc), ("specbatt", hSpecBatt), ("specurl", hSpecUrl),
    ("spectxpower", hSpecTxPower)]
